@@ -380,7 +380,10 @@ def run_topo(case: Dict) -> CaseResult:
                                 f"{when}: {a} -> {dst_ip}: reference says request and reply are deliverable "
                                 f"(fwd {sorted(ref.walk(a, ip2int(dst_ip), st_))}), simulator returned False")
                 elif expected is False and got:
-                    res.violate(f"{k}-succeeds-though-unreachable:{where}:{phase}:{tg}",
+                    fwd = ref.walk(a, ip2int(dst_ip), st_)
+                    clause = f"{k}-answered-by-non-addressee" if any(o == "misdelivered" for o, _ in fwd) else \
+                        f"{k}-succeeds-though-unreachable:{where}:{phase}:{tg}"
+                    res.violate(clause,
                                 f"{when}: {a} -> {dst_ip}: reference fates fwd {sorted(ref.walk(a, ip2int(dst_ip), st_))}"
                                 + (f" rev {sorted(ref.walk(b, ip2int(ref.node[a]['ip']), st_))}" if b else "")
                                 + ", simulator returned True")
@@ -401,6 +404,19 @@ def run_topo(case: Dict) -> CaseResult:
                 raise ValueError(op)
             for sig, msg in rec.viol[nviol:]:
                 res.violate(sig, f"{when}: {msg}")
+            if rec.misdelivered:
+                # cause: the scenario's own routes name this host as a next hop (the reference walk predicts the hand-over),
+                # or the frame merely carried / did not carry the node's MAC
+                predicted = set()
+                if k in ("ping", "dns", "ping_ip"):
+                    st2 = _sim_state(net)
+                    fates = set(ref.walk(op[1], ip2int(dst_ip), st2))
+                    if k != "ping_ip":
+                        fates |= set(ref.walk(op[2], ip2int(ref.node[op[1]]["ip"]), st2))
+                    predicted = {n for o, n in fates if o == "misdelivered"}
+                for node_name, how, kind_, proto, msg in rec.misdelivered[:8]:
+                    cause = "route-via-host" if node_name in predicted else how
+                    res.violate(f"misdelivered:{cause}:{kind_}:{proto}", f"{when}: {msg}")
             if len(res.violations) > 30:
                 break
     finally:
@@ -465,12 +481,12 @@ def _blocks(maxlen: int):
 
 FAMILY_PLAN = {
     # family -> (quick examples per worker, thorough examples per worker)
-    "routed": (14, 420),
-    "dmz": (4, 120),
-    "lan": (3, 60),
-    "wifi": (3, 90),
-    "loop": (3, 60),
-    "ring": (2, 40),
+    "routed": (14, 300),
+    "dmz": (4, 80),
+    "lan": (5, 60),
+    "wifi": (3, 60),
+    "loop": (3, 40),
+    "ring": (2, 24),
 }
 
 
@@ -495,10 +511,12 @@ def worker(ctx: Ctx):
     ctx.extra["lpm_lookups"] = lookups
     ctx.extra["lpm_nontrivial_lookups"] = multi
     # (a) random tables through the public API
-    hyp_run(ctx, routes_case(), run_case, 250 if quick else 6000, sub=1)
+    hyp_run(ctx, routes_case(), run_case, 250 if quick else 4000, sub=1)
     # (b)-(d) topologies
-    # exclusion by construction: while the ARP-request loop is an open finding it would end (by exception) every case that
-    # makes a router ARP for an unowned address on a segment shared with another router, hiding what comes after it
+    # exclusion by construction: while "routers route link-layer broadcasts" (C08-arp-request-loop) is open, the generator
+    # stays away from its other symptoms: the exception ends every case that makes a router ARP for an unowned address on a
+    # segment shared with another router, and with >2 hosts on a routed LAN the rewritten flood copies corrupt switch tables
+    # and duplicate replies under signatures too generic to list (see c08_gen.py and findings/C08-NOTES.md)
     avoid = bool(ctx.excl.get(STORM_FINDING))
     for sub, (family, (nq, nt)) in enumerate(FAMILY_PLAN.items(), start=2):
         hyp_run(ctx, gen.topo_case(family, avoid_storm=avoid), run_case, nq if quick else nt, sub=sub)
